@@ -493,6 +493,90 @@ def inline_sets(items, env=None):
     return out
 
 
+# ----------------------------------------------------------------- {% set %} propagation
+
+def names_of(e) -> set:
+    """free names of an expression"""
+    out = set()
+
+    def rec(x):
+        if isinstance(x, tuple):
+            if len(x) == 2 and x[0] == "name" and isinstance(x[1], str):
+                out.add(x[1])
+            else:
+                for y in x:
+                    rec(y)
+    rec(e)
+    return out
+
+
+def subst_names(e, env: dict):
+    """expression with every ("name", n) that has a value in `env` replaced by that value"""
+    if not isinstance(e, tuple):
+        return e
+    if len(e) == 2 and e[0] == "name" and isinstance(e[1], str):
+        return env.get(e[1], e)
+    return tuple(subst_names(x, env) if isinstance(x, tuple) else x for x in e)
+
+
+def propagate_sets(items):
+    """The same items with every use of a `{% set name = expr %}` variable replaced by the expression it stands for (use-def
+    expansion in document order, Jinja scoping: a `for` body is its own scope, `if` opens none), so that a rule reads
+    `{% set row = loop.index0 // n %} .. {{ row }}` exactly as `{{ loop.index0 // n }}`.  The `set` items stay in place (with their
+    values expanded).  A name is NOT expanded where that would change its meaning: after an `{% if %}` only one arm of which
+    assigned it, after a `{% set %}` block, and -- for values mentioning `loop` or a name the loop re-binds -- inside a nested loop.
+    An output of a concatenation `{{ "lit" ~ x }}` is split into the text and the output it is equal to."""
+    def targets(t):
+        return names_of(t)
+
+    def rec(its, env):
+        out = []
+        for it in its:
+            k = it[0]
+            if k == "out":
+                e = subst_names(it[1], env)
+                if e[0] == "concat":
+                    for p_ in e[1]:
+                        if p_[0] == "const" and isinstance(p_[1], str):
+                            out.append(("text", p_[1], it[2], it[3]))
+                        else:
+                            out.append(("out", p_, it[2], it[3]))
+                else:
+                    out.append(("out", e) + tuple(it[2:]))
+            elif k == "set":
+                v = subst_names(it[2], env)
+                out.append(("set", it[1], v) + tuple(it[3:]))
+                if it[1][0] == "name":
+                    env[it[1][1]] = v
+                else:
+                    for n_ in targets(it[1]):
+                        env.pop(n_, None)
+            elif k == "setblock":
+                for n_ in targets(it[1]):
+                    env.pop(n_, None)
+                out.append(it)
+            elif k == "for":
+                bound = targets(it[1]) | {"loop"}
+                inner = {n_: v for n_, v in env.items() if n_ not in bound and not (names_of(v) & bound)}
+                body = tuple(rec(it[3], dict(inner)))
+                els = tuple(rec(it[4], dict(env)))
+                out.append(("for", it[1], subst_names(it[2], env), body, els, it[5], it[6], subst_names(it[7], inner) if it[7] is not None else None))
+            elif k == "if":
+                ea, eb = dict(env), dict(env)
+                a = tuple(rec(it[2], ea))
+                b = tuple(rec(it[3], eb))
+                out.append(("if", subst_names(it[1], env), a, b) + tuple(it[4:]))
+                for n_ in set(ea) | set(eb) | set(env):
+                    if ea.get(n_) == eb.get(n_) and n_ in ea:
+                        env[n_] = ea[n_]
+                    else:
+                        env.pop(n_, None)
+            else:
+                out.append(it)
+        return out
+    return rec(items, {})
+
+
 def _walk_all(tree, rel):
     for it, _ in walk_items(flatten(tree, rel, {})):
         yield it
